@@ -387,6 +387,10 @@ def gen_atx(c):
     else:
         inl = gen_inlines(c, allow_break=False, n=1 + t.below(3)) if not t.chance(20) else []
     closing = '' if (c.canonical and False) else t.choice(['', '', '#', '###', '##'])
+    if not c.outline and not c.canonical and not c.reflow and t.chance(10):
+        # a heading whose text is a run of hashes: it needs a closing sequence after it to be text
+        inl = [N('text', s=t.choice(['#', '##', '#######']))]
+        closing = t.choice(['#', '##'])
     if not inl and 'empty_atx_closing' in c.exclude:
         closing = ''
     return N('atx', level=level, inl=inl, closing=closing, sp=1 if c.canonical else t.weighted([(4, 1), (1, 2), (1, 3)]),
